@@ -14,20 +14,57 @@ spec("include_candidate", "dirs:list[str], f:str, i:int", "str",
 OPTIONS = '"include_dirs", "_ignore_comments", "_include_omp_conditional_lines", "process_directives", "id"'
 KEPT = "old_objects_keep(%s)" % OPTIONS
 
-contract(R + "FortranFileReader.__init__", trusted=True,
-    types=dict(self="FortranFileReader", file_candidate="str", include_dirs="list[str]?", source_only="any", ignore_comments="bool",
+FRESH = ("self.linecount == 0 and not self.isclosed and self.filo_line == [] and list(self.fifo_item) == [] and self.source_lines == [] "
+         "and self.reader is None")
+OPTS = ("self._ignore_comments == (False if process_directives else ignore_comments) and "
+        "self._include_omp_conditional_lines == include_omp_conditional_lines and self.process_directives == process_directives")
+INIT_FIELDS = ["self.source", "self._include_omp_conditional_lines", "self._format", "self.linecount", "self.isclosed", "self._ignore_comments",
+               "self.process_directives", "self.filo_line", "self.fifo_item", "self.source_lines", "self.f2py_comment_lines", "self.reader",
+               "self.include_dirs", "self.source_only", "self.exit_on_error", "self.restore_cache", "self._re_omp_sentinel", "self._re_omp_sentinel_cont"]
+
+contract("proto:set_format", trusted=True,
+    types=dict(self="FortranReaderBase", mode="ref:FortranFormat"), modifies=["self._format", "self._re_omp_sentinel", "self._re_omp_sentinel_cont"],
+    ensures={"stored": "self._format == mode"}, raises=[],
+    note="FortranReaderBase.set_format(mode): stores the format and (re)builds the sentinel patterns")
+
+contract(R + "FortranReaderBase.__init__",
+    types=dict(self="FortranReaderBase", source="any", mode="ref:FortranFormat", ignore_comments="bool", include_omp_conditional_lines="bool",
+               process_directives="bool"),
+    defaults=dict(include_omp_conditional_lines=False, process_directives=False),
+    modifies=INIT_FIELDS,
+    calls={"self.set_format": "proto:set_format"},
+    ensures={"fresh": FRESH, "options": OPTS, "default_include_path": "self.include_dirs == ['.']", "format": "self._format == mode"},
+    raises=[],
+    serves=["C12", "C13"],
+)
+
+contract(R + "FortranFileReader.__init__",
+    types=dict(self="FortranFileReader", file_candidate="str", include_dirs="list[str]?", source_only="list[str]?", ignore_comments="bool",
                ignore_encoding="bool", include_omp_conditional_lines="bool", process_directives="bool"),
     defaults=dict(include_dirs=None, source_only=None, ignore_comments=True, ignore_encoding=True, include_omp_conditional_lines=False, process_directives=False),
-    modifies=["self.reader", "self.include_dirs", "self._ignore_comments", "self._include_omp_conditional_lines", "self.process_directives", "self.id",
-              "self.linecount", "self.isclosed", "self.filo_line", "self.fifo_item", "self.source_lines"],
+    modifies=INIT_FIELDS + ["self.id", "self.file", "self._close_on_destruction"],
+    calls={"open": "opaque:any", "fparser.common.sourceinfo.get_source_info": "opaque:ref:FortranFormat", "os.path.dirname": "pure:str"},
     ensures={"id": "self.id == file_candidate",
+             # C13: the include path is exactly the one given; only without one the file's own directory comes first
              "dirs": "implies(include_dirs is not None, self.include_dirs == include_dirs)",
-             "options": "self._ignore_comments == (False if process_directives else ignore_comments) and "
-                        "self._include_omp_conditional_lines == include_omp_conditional_lines and self.process_directives == process_directives",
-             "fresh": "self.reader is None"},
+             "dirs_default": "implies(include_dirs is None, self.include_dirs == [os.path.dirname(file_candidate), '.'])",
+             "options": OPTS,
+             "fresh": FRESH},
     raises={"*": {"others_kept": KEPT}},
-    note="constructor of the nested reader (opens the file, detects its form, FortranReaderBase.__init__ stores the options): "
-         "what it stores is stated over the new object's fields")
+    serves=["C13"],
+    note="open() and get_source_info() are abstracted (may raise anything); the file-like branch is excluded by the argument type")
+
+contract(R + "FortranStringReader.__init__",
+    types=dict(self="FortranStringReader", string="str", include_dirs="list[str]?", source_only="list[str]?", ignore_comments="bool",
+               ignore_encoding="bool", include_omp_conditional_lines="bool", process_directives="bool"),
+    defaults=dict(include_dirs=None, source_only=None, ignore_comments=True, ignore_encoding=True, include_omp_conditional_lines=False, process_directives=False),
+    modifies=INIT_FIELDS + ["self.id"],
+    calls={"StringIO": "opaque:any", "fparser.common.sourceinfo.get_source_info_str": "opaque:ref:FortranFormat", "hash": "pure:int", "str": "pure:str"},
+    ensures={"dirs": "implies(include_dirs is not None, self.include_dirs == include_dirs)",
+             "dirs_default": "implies(include_dirs is None, self.include_dirs == ['.'])", "options": OPTS, "fresh": FRESH},
+    raises={"*": {}},
+    serves=["C13"],
+)
 
 contract("proto:_next", trusted=True,
     types=dict(self="FortranReaderBase", ignore_comments="bool?"), returns="ref",
@@ -40,7 +77,7 @@ contract(R + "FortranReaderBase.next",
     locals=dict(include_dirs="list[str]"), alloc_facts=True,
     modifies=["*.fifo_item", "*.linecount", "*.filo_line", "*.source_lines", "*.isclosed", "*.reader", "*.include_dirs", "*._ignore_comments",
               "*._include_omp_conditional_lines", "*.process_directives", "*.id"],
-    calls={"self._next": "proto:_next", "os.path.join": "pure:str", "os.path.isfile": "pure:bool",
+    calls={"self._next": "proto:_next", "os.path.join": "pure:str", "os.path.isfile": "pure:bool", "os.path.dirname": "pure:str",
            "self.format_message": "noraise:str", "str": "pure:str"},
     ensures_local={
         # the nested reader is opened on the first match of the include path, with the parent's options
